@@ -82,6 +82,9 @@ impl ExtensionsMap {
     ) -> Result<Self, ParserError> {
         let mut result = ExtensionsMap::default();
 
+        let mut seen_unicode = false;
+        let mut seen_transform = false;
+
         let mut st = iter.next();
         while let Some(subtag) = st {
             if subtag.len() > 1 {
@@ -89,10 +92,12 @@ impl ExtensionsMap {
                 return Err(ParserError::InvalidSubtag);
             }
             match subtag.first().map(|b| ExtensionType::from_byte(*b)) {
-                Some(Ok(ExtensionType::Unicode)) => {
+                Some(Ok(ExtensionType::Unicode)) if !seen_unicode => {
+                    seen_unicode = true;
                     result.unicode = UnicodeExtensionList::try_from_iter(iter)?;
                 }
-                Some(Ok(ExtensionType::Transform)) => {
+                Some(Ok(ExtensionType::Transform)) if !seen_transform => {
+                    seen_transform = true;
                     result.transform = TransformExtensionList::try_from_iter(iter)?;
                 }
                 Some(Ok(ExtensionType::Private)) => {
